@@ -515,6 +515,28 @@ func vLemmaSwapBytesAppends(buf []byte, hdrs []header, x0, x1 uint32, head, i0, 
 	vAssert("appended-value", len(r3.Bytes()) == len(w) && vForall(0, len(w), func(i int) bool { return r3.Bytes()[i] == w[i] }))
 }
 
+// The order of the rewritten buffer (C06; D2, known finding). A replica applies the buffer in byte order, the primary
+// applied it in the order it was written. Here the transaction merged into a row and then stored to the same row; the
+// commit pass has merged (SwapBytes of the merged value, of another length than the delta) and a second reader
+// decodes what a replica will see: the store that FOLLOWED the merge must still be the last operation of the row.
+// With the merged value appended behind it, it is not: the replica ends on the merged value, the primary on the store.
+//
+//@ lemma props=C06
+func vLemmaSizeChangingMergeKeepsItsPlace(buf []byte, hdrs []header, x0 uint32, head, i0, i1 int, at int32, w0 []byte, m uint16) {
+	// the reader has just decoded the merge (vSwapSetup); the operation behind it is the last one the transaction wrote
+	// (so the buffer's writing position is that row): a store to the same row (offset delta 0), ending the buffer
+	b, r, w := vSwapSetup(buf, hdrs, x0, uint32(len(buf)), head, i0, i1, at, w0, m, at, ChunkAt(uint32(at)))
+	oldLen := len(buf)
+	p := int(x0) + i1
+	vAssume(len(w) != i1-i0 && p+4 <= oldLen && buf[p] == byte(Put)|size2|isString && buf[oldLen-1] == 0)
+	vAssume(p+3+(int(buf[p+1])<<8|int(buf[p+2]))+1 == oldLen) // header, two length bytes, the value, offset delta 0: one operation
+	r.SwapBytes(w)                                           // the column has stored merge(value, delta) = w
+	r2 := &Reader{buffer: b.buffer[p:], Offset: at}
+	vAssert("the-store-is-still-decoded", r2.Next() && r2.Type == Put && r2.Index() == uint32(at) && r2.last == oldLen-p)
+	// (what SwapBytes appends is, by vLemmaSwapBytesAppends, a store of the merged value to the same row)
+	vAssert("the-store-that-followed-the-merge-is-the-last-operation-of-the-row", r2.last == len(r2.buffer))
+}
+
 // ---------------------------------------------------------------------------------------------
 // Buffer.RangeChunks (C15, C06): the delegate is told the block of every run of the buffer, in order (a block with
 // several runs is named several times: the caller marks blocks dirty, which is idempotent).
